@@ -30,7 +30,9 @@ define('WF(f)',
        " and len(f.fill) == 1 and allocated(f.begin_of_fragments)")
 # byte position p is occupied by a stored chunk
 define('occupied(f, p)',
-       "exists(lambda q: q in f.fragments and q <= p and p < q + len(f.fragments[q]))")
+       # (witness hint: the only chunk that can cover p is the one with the largest begin <= p)
+       "exists(lambda q: q in f.fragments and q <= p and p < q + len(f.fragments[q]),"
+       "       wit=[B(f, bisect_right(f.begin_of_fragments, p) - 1)])")
 # state after storing chunk s at position pos: whole-view postcondition (nothing else changes)
 define('stored(f, pos, s)',
        "f.current_offset == pos + len(s)"
@@ -61,7 +63,9 @@ _insert = dict(
         # exceptional exit: the buffer is unchanged ...
         "unchanged(self)",
         # ... and (for a non-empty chunk) some byte of [position, position+len) is occupied
-        "implies(len(string) > 0, exists(position, position + len(string), lambda x: old(occupied(self, x))))",
+        # (witness hints: the position itself, or the begin of the next chunk)
+        "implies(len(string) > 0, exists(position, position + len(string), lambda x: old(occupied(self, x)),"
+        "        wit=[position, old(B(self, bisect_right(self.begin_of_fragments, position)))]))",
     ]},
     modifies=['self.fragments{*}', 'self.begin_of_fragments[*]', 'self.current_offset', 'self.ghost_idx{*}'])
 
